@@ -25,6 +25,10 @@ func init() {
 
 func runC08(w *World, r *Report) {
 	hrCleanAll(w, r, "R2")
+	hrNotifyHubInBackground(w, r, "R4")
+	hrBackupChecksumKeys(w, r, "R2")
+	// an endpoint configured again is not un-managed by an older reload's delayed job (C14.R5)
+	r.Borrow(w, c14DelayedUnmanage, map[string]string{"R5": "R4"})
 	hrAllLocksReleased(w, r, NewLockAn(w), "R4", "lunar/toolkit-core/status-message", "lunar/engine/config", "lunar/engine/routing", "lunar/engine/streams/config")
 	hrCleanUpFile(w, r, "R2")
 	hrFlowNamesUnique(w, r, "R5")
